@@ -2,8 +2,8 @@
   C10 model driver.  ops (see harness/c10):
     new <mtu> <frag> <reasm> <ifi> <cm> <thr> <seq>
     tx <id> <pkthex> <tokhex|-> <itok> <mark|-> <inface|-> <cong>   => n=<k> <framehex>*
-    rx <id> <i>                                                    => ps=<n> [d=<pkthex>/<tokhex|->/<mark|->]*
-    end                                                            => ps=<n>
+    rx <id> <i>                                                    => ps=<n> [d=<pkthex>/<tokhex|->/<mark|->]* [st=<digest of all retained packets>]
+    end                                                            => ps=<n> [h=<pkthex>/<tokhex|->/<mark|->]*   (every retained packet again)
   DIFF: the Lean model of sendPacket / handleIncomingFrame against the real link services.
   SPEC: the specification predicates evaluated on the frames and deliveries of the REAL code.
 -/
@@ -28,8 +28,17 @@ structure MsgInfo where
   judged : Bool               -- the sender side was well-formed, so the receiver can be judged
   handed : List Nat := []
 
+def fnvText (h : UInt64) (s : String) : UInt64 :=
+  s.foldl (fun h c => (h ^^^ c.toNat.toUInt64) * 0x100000001b3) h
+
+/-- digest of the renderings of all retained packets (harness `heldDigest`) -/
+def heldDigest (rs : List String) : String :=
+  String.ofList (Nat.toDigits 16 (rs.foldl (fun h r => fnvText (fnvText h r) ";") 0xcbf29ce484222325).toNat)
+
 structure DSt where
   active : Bool := false
+  heldModel : List String := []   -- model: renderings of the packets delivered so far
+  heldImpl : List String := []    -- spec: renderings as the IMPLEMENTATION reported them at delivery
   cfg : TxCfg := { mtu := 0 }
   reasm : Bool := true
   tx : TxSt := {}
@@ -43,8 +52,10 @@ def optNatText (s : String) : Option (Option Nat) :=
 def natText : Option Nat → String
   | none => "-" | some n => toString n
 
-def deliveryText (w tok : Bytes) (mark : Option Nat) : String :=
-  s!"d={hexOfBytes w}/{hexOrDash tok}/{natText mark}"
+def renderText (w tok : Bytes) (mark : Option Nat) : String :=
+  s!"{hexOfBytes w}/{hexOrDash tok}/{natText mark}"
+
+def deliveryText (w tok : Bytes) (mark : Option Nat) : String := "d=" ++ renderText w tok mark
 
 def parseDelivery (s : String) : Option Delivery :=
   if !s.startsWith "d=" then none else
@@ -137,10 +148,14 @@ def stepC10 (d : DSt) (op : String) (got : String) : StepResult DSt :=
       | some frame =>
         -- ---------- model
         let r := handleFrame d.reasm outerOk d.store frame
+        let heldModel' := match r.2 with
+          | .drop => d.heldModel
+          | .deliver x => d.heldModel ++ [renderText x.wire x.token x.mark]
         let (expected, cov) : Option String × List String := match r.2 with
           | .drop => (some s!"ps={r.1.length}", [if r.1.length > d.store.length then "rx-store-new" else if r.1.length > 0 ∧ info.frames.length > 1 then "rx-store-more" else "rx-drop"])
-          | .deliver x => (some s!"ps={r.1.length} {deliveryText x.wire x.token x.mark}",
-                           [if info.frames.length > 1 then "rx-deliver-reassembled" else "rx-deliver-single"])
+          | .deliver x => (some s!"ps={r.1.length} {deliveryText x.wire x.token x.mark} st={heldDigest heldModel'}",
+                           [if info.frames.length > 1 then "rx-deliver-reassembled" else "rx-deliver-single"] ++
+                           (if info.frames.length > 1 && !d.heldModel.isEmpty then ["rx-deliver-while-holding-earlier"] else []))
         -- ---------- specification on the implementation's deliveries
         let dup := info.handed.contains i
         let judge := d.judgeRx && info.judged && !dup
@@ -159,13 +174,33 @@ def stepC10 (d : DSt) (op : String) (got : String) : StepResult DSt :=
                           (if x.wire ≠ w.wire then "wrong-bytes" else if x.token ≠ w.token then "wrong-token" else "wrong-mark"),
                           s!"message {id}: delivered {x.wire.length}B token={hexOrDash x.token} mark={natText x.mark}, sent {w.wire.length}B token={hexOrDash w.token} mark={natText w.mark}"⟩]
           | _, _ => [⟨"delivered-exactly-once", "count", s!"message {id}: {idel.length} deliveries at one arrival"⟩]
+        -- delivered packets must keep their bytes while the forwarder holds them: the harness retains
+        -- every delivered packet uncopied and re-renders all of them (digest `st`) at each delivery
+        let newImpl := (toks.filter (·.startsWith "d=")).map (fun t => (t.drop 2).toString)
+        let heldImpl' := d.heldImpl ++ newImpl
+        let stable : List SpecFail :=
+          match toks.find? (·.startsWith "st=") with
+          | some t =>
+            if (t.drop 3).toString == heldDigest heldImpl' then [] else
+              [⟨"delivered-bytes-stable", "changed-after-delivery",
+                s!"after the delivery at 'rx {id} {i}' a packet delivered EARLIER in this history (of {d.heldImpl.length}) no longer has the bytes / token / mark it was delivered with"⟩]
+          | none => []
         let info' := { info with handed := i :: info.handed }
-        { st := { d with store := r.1, msgs := info' :: d.msgs.filter (·.id ≠ id), judgeRx := d.judgeRx && !dup },
-          expected := expected, spec := crash ++ fails, cov := cov ++ (if dup then ["rx-duplicate"] else []) }
+        { st := { d with store := r.1, msgs := info' :: d.msgs.filter (·.id ≠ id), judgeRx := d.judgeRx && !dup,
+                         heldModel := heldModel', heldImpl := heldImpl' },
+          expected := expected, spec := crash ++ fails ++ stable, cov := cov ++ (if dup then ["rx-duplicate"] else []) }
     | _, _ => { st := d, expected := some "skip" }
   | ["end"] =>
     if !d.active then { st := d, expected := some "skip" } else
-    { st := d, expected := some s!"ps={d.store.length}", spec := crash, cov := [if d.store.isEmpty then "end-store-empty" else "end-store-nonempty"] }
+    let toks := (got.splitOn " ").filter (· ≠ "")
+    let hImpl := (toks.filter (·.startsWith "h=")).map (fun t => (t.drop 2).toString)
+    let stable : List SpecFail :=
+      if !got.startsWith "ps=" || hImpl = d.heldImpl then [] else
+      let bad := ((List.range d.heldImpl.length).filter fun k => hImpl[k]? ≠ d.heldImpl[k]?)
+      [⟨"delivered-bytes-stable", "changed-at-end",
+        s!"at the end of the history {bad.length} of the {d.heldImpl.length} delivered packet(s) (delivery no. {bad.map (· + 1)}) no longer have the bytes / token / mark they were delivered with"⟩]
+    { st := d, expected := some (s!"ps={d.store.length}" ++ String.join (d.heldModel.map fun r => " h=" ++ r)),
+      spec := crash ++ stable, cov := [if d.store.isEmpty then "end-store-empty" else "end-store-nonempty"] }
   | _ => { st := d, expected := some "bad-op" }
 
 def main : IO Unit := Ndn.Driver.run ({} : DSt) stepC10
